@@ -100,9 +100,21 @@ impl Sub {
             _ => { let mut s = self.clone(); s.parent[ra] = rb; s.consistent() }
         }
     }
-    /// canonical observable: for each variable either its value or the least variable it is aliased to
+    /// canonical observable: for each variable either its value or the least variable it is aliased to, and (last
+    /// element) the set of ground instances over the universe {1, 2, 3, 9} that the attached disequalities allow
     fn observe(&self) -> Vec<String> {
-        (0..NV).map(|v| { let r = self.find(v); match self.val[r] { Some(k) => k.to_string(), None => format!("_{}", (0..NV).filter(|w| self.find(*w) == r).min().unwrap()) } }).collect()
+        let mut o: Vec<String> = (0..NV).map(|v| { let r = self.find(v); match self.val[r] { Some(k) => k.to_string(), None => format!("_{}", (0..NV).filter(|w| self.find(*w) == r).min().unwrap()) } }).collect();
+        let mut mask = String::new();
+        for asg in ground_assignments() {
+            // the assignment must agree with the answer's bindings and aliasing ...
+            let fits = (0..NV).all(|v| { let r = self.find(v); (match self.val[r] { Some(k) => asg[v] == k, None => true }) && asg[v] == asg[r] });
+            // ... and must not make any attached disequality false
+            let val = |a: &A| match a { A::K(k) => *k, A::V(v) => asg[*v] };
+            let ok = fits && !self.ne.iter().any(|c| c.iter().all(|(a, b)| val(a) == val(b)));
+            mask.push(if ok { '1' } else { '0' });
+        }
+        o.push(mask);
+        o
     }
 }
 
@@ -183,9 +195,39 @@ fn build_dfs(g: &G, vars: &[T]) -> DFSGoal<U, E> {
     }
 }
 
+const UNIVERSE: [isize; 4] = [1, 2, 3, 9];
+fn ground_assignments() -> Vec<[isize; NV]> {
+    let mut v = vec![];
+    for a in UNIVERSE { for b in UNIVERSE { for c in UNIVERSE { v.push([a, b, c]); } } }
+    v
+}
 fn observe_state(st: &State<U, E>, vars: &[T]) -> Vec<String> {
     let w: Vec<T> = vars.iter().map(|v| st.smap_ref().walk(v).clone()).collect();
-    (0..NV).map(|i| match w[i].get_number() { Some(k) => k.to_string(), None => format!("_{}", (0..NV).filter(|j| w[*j] == w[i]).min().unwrap()) }).collect()
+    let mut o: Vec<String> = (0..NV).map(|i| match w[i].get_number() { Some(k) => k.to_string(), None => format!("_{}", (0..NV).filter(|j| w[*j] == w[i]).min().unwrap()) }).collect();
+    // C02: the ground instances of the answer are the assignments that agree with its bindings and satisfy the
+    // disequalities attached to it (read from the real constraint store)
+    let ground = |t: &T, asg: &[isize; NV]| -> Option<isize> {
+        let tw = st.smap_ref().walk(t);
+        if let Some(k) = tw.get_number() { return Some(k); }
+        vars.iter().position(|v| v == tw).map(|i| asg[i])
+    };
+    let mut mask = String::new();
+    for asg in ground_assignments() {
+        let fits = (0..NV).all(|i| match w[i].get_number() { Some(k) => asg[i] == k, None => { let r = (0..NV).filter(|j| w[*j] == w[i]).min().unwrap(); asg[i] == asg[r] } });
+        let mut ok = fits;
+        if ok {
+            for c in st.cstore_ref().iter() {
+                if let Some(d) = c.downcast_ref::<proto_vulcan::relation::diseq::DisequalityConstraint<U, E>>() {
+                    // a (tuple) disequality is false exactly when every pair is equal
+                    let all_equal = d.smap_ref().iter().all(|(k, v)| match (ground(k, &asg), ground(v, &asg)) { (Some(x), Some(y)) => x == y, _ => false });
+                    if all_equal { ok = false; }
+                }
+            }
+        }
+        mask.push(if ok { '1' } else { '0' });
+    }
+    o.push(mask);
+    o
 }
 
 fn run_real(g: &G, mode_dfs: bool, limit: usize) -> Vec<Vec<String>> {
